@@ -211,10 +211,14 @@ pub fn run(ctx: &Ctx, only: Option<&Only>) -> Report {
         }
     });
     let secs = if ctx.tier_thorough { ctx.budget_s } else { 0.0 };
-    let brent_steps = ctx.n(1 << 21, 1 << 27);
+    let mut brent_steps = ctx.n(1 << 21, 1 << 27);
+    if ctx.scale < 1.0 {
+        brent_steps = ((brent_steps as f64 * ctx.scale) as u64).max(2_000);
+    }
     total.merge(drive(ctx, "linearity", ctx.n(600, 600), secs * 0.2, |id, r| case("linearity", id, 0, r)));
     total.merge(drive(ctx, "brent", ctx.n(120, 120), secs * 0.4, |id, r| case("brent", id, brent_steps, r)));
-    total.merge(drive(ctx, "injective", ctx.n(60, 60), secs * 0.2, |id, r| case("injective", id, ctx.n(20_000, 200_000), r)));
+    let inj = if ctx.scale < 1.0 { 500 } else { ctx.n(20_000, 200_000) };
+    total.merge(drive(ctx, "injective", ctx.n(60, 60), secs * 0.2, |id, r| case("injective", id, inj, r)));
     total.merge(drive(ctx, "api_seeded", ctx.n(1_500, 1_500), secs * 0.1, |id, r| case("api_seeded", id, 0, r)));
     total.merge(drive(ctx, "mixed_ops", ctx.n(6_000, 6_000), secs * 0.1, |id, r| case("mixed_ops", id, 0, r)));
     for &ti in &LINEAR_TYPES {
